@@ -1,5 +1,6 @@
 import Secp.Proofs.PubKey
 import Secp.Proofs.Slices
+import Secp.Proofs.BytesProgPub
 /-
   Props/C08 — public-key parsing accepts exactly the valid encodings and round-trips.
   Model: `Secp.Model.parsePubKey`, `serializeCompressed/Uncompressed`,
@@ -63,5 +64,20 @@ example : OnCurve Gx Gy := by decide +kernel
     `contracts_justified`) this is what makes the value-level model above faithful to the limb code. -/
 theorem pubkey_field_arithmetic_exact :
     Secp.Proofs.Slices.entriesOK ["github.com/ModChain/secp256k1.ParsePubKey", "github.com/ModChain/secp256k1.PublicKey.SerializeCompressed", "github.com/ModChain/secp256k1.PublicKey.SerializeUncompressed", "github.com/ModChain/secp256k1.NewPublicKey", "github.com/ModChain/secp256k1.PublicKey.IsEqual", "github.com/ModChain/secp256k1.PublicKey.IsOnCurve", "github.com/ModChain/secp256k1/schnorr.ParsePubKey"] = true := by decide +kernel
+
+
+/-! ### the parser as REGENERATED from pubkey.go (tools/gotr pass T7) -/
+
+/-- `Secp.Gen.BytesProg.parsePubKey` — the statement-by-statement translation of `ParsePubKey` produced on every run (length
+    switch, format switch, range checks through `SetByteSlice`, the hybrid parity block, `isOnCurve`, `DecompressY`) — is the
+    same function as the hand-written model, so the theorems of this file are theorems about what the Go source says now:
+    a format byte admitted or refused, a slice bound, the parity comparison, a dropped check or a changed error kind makes this
+    theorem fail to check. -/
+theorem parsePubKey_regenerated (b : Bytes) : Secp.Gen.BytesProg.parsePubKey b = parsePubKey b :=
+  Secp.Proofs.BytesProgPub.parsePubKey_gen_eq_model b
+
+/-- the REGENERATED parser never indexes or slices out of range -/
+theorem regenerated_no_panic (b : Bytes) : Secp.Gen.BytesProg.parsePubKey b ≠ .panic := by
+  rw [parsePubKey_regenerated]; exact parsePubKey_no_panic b
 
 end Secp.Props.C08
